@@ -74,9 +74,16 @@ class Item(object):
 
 
 _SLOW = {}      # clause -> number of instances the solver gave up on (per process)
+_SPENT = [0.0]  # solver seconds spent on obligations that did not discharge (per process)
+GIVE_UP_AFTER_S = 240
 
 
 def discharge(item, timeout_ms, second_opinion=False):
+    if _SPENT[0] > GIVE_UP_AFTER_S:
+        # minutes have gone into obligations the solver cannot decide: the tree is outside what the proofs cover;
+        # the remaining obligations get a short budget so that the check still ends in reasonable time
+        timeout_ms = min(timeout_ms, 2000)
+        second_opinion = False
     if _SLOW.get(item.clause, 0) >= 2:
         # the clause is already undecided twice in this process: further instances get a short budget
         # (the verdict for the clause cannot become "discharged" any more)
@@ -85,6 +92,7 @@ def discharge(item, timeout_ms, second_opinion=False):
     r = _discharge(item, timeout_ms, second_opinion)
     if item.result == 'unknown':
         _SLOW[item.clause] = _SLOW.get(item.clause, 0) + 1
+        _SPENT[0] += item.seconds
     return r
 
 
@@ -178,7 +186,11 @@ def discharge_all(items, timeout_ms, second_opinion=False):
             if goals:
                 body = list(run[0].assertions) + [Z.Not(Z.And(*goals))]
                 tmo = timeout_ms if not any(_SLOW.get(x.clause, 0) >= 2 for x in run) else min(timeout_ms, 3000)
+                if _SPENT[0] > GIVE_UP_AFTER_S:
+                    tmo = min(tmo, 2000)
                 r, m, dt = Z.check(Z.relevant_axioms(body) + body, tmo, want_model=False)
+                if r == 'unknown':
+                    _SPENT[0] += dt
             else:
                 r, dt = 'unsat', 0.0
             if r == 'unsat':
